@@ -197,23 +197,13 @@ func (cs *ContractSet) ParseContractLines(file string, lines []string, poss []st
 				cs.Errors = append(cs.Errors, fmt.Sprintf("%s: bad ghost declaration %q", it.pos, it.rest))
 			}
 		case "protocol":
-			// protocol name(n *Node, e error): expr
-			m := regexp.MustCompile(`^(\w+)\s*\(([^)]*)\)\s*:(.*)$`).FindStringSubmatch(it.rest)
-			if m == nil {
-				cs.Errors = append(cs.Errors, fmt.Sprintf("%s: bad protocol %q", it.pos, it.rest))
-				continue
-			}
-			p := &Protocol{Name: m[1]}
-			for _, v := range strings.Split(m[2], ",") {
-				f := strings.Fields(strings.TrimSpace(v))
-				if len(f) == 2 {
-					p.Params = append(p.Params, CVar{f[0], f[1]})
-				}
-			}
-			p.Inv = addClause("protocol", strings.TrimSpace(m[3]), it.pos)
-			cs.Protocols[p.Name] = p
-			curProto = p
-			cur = nil
+			// protocol name(p1, p2): a contract for function values (callbacks, yield functions)
+			inGlobal = false
+			curProto = nil
+			cur = newContract("protocol", it.rest, it.pos)
+			cur.Key = "protocol." + cur.Key
+			delete(cs.ByKey, strings.TrimPrefix(cur.Key, "protocol."))
+			cs.ByKey[cur.Key] = cur
 		case "pred":
 			m := regexp.MustCompile(`^(\w+)\s*\(([^)]*)\)\s*:(.*)$`).FindStringSubmatch(it.rest)
 			if m == nil {
